@@ -185,6 +185,10 @@ def gen_engine():
         if draw(st.booleans()):
             types.append(4)
         epochs = [[0, 1, 1]] + [[t, g_ * draw(st.integers(1, 4)) if t != 2 else g_ * draw(st.integers(2, 5)), 1] for t in types]
+        if draw(st.integers(0, 2)) == 0:
+            # a one-iteration fast-adaptation epoch (one-sample history; a one-sample SLOW epoch has no defined variance and is not generated)
+            first_post = next(i for i, e in enumerate(epochs) if e[0] == 4)
+            epochs.insert(draw(st.integers(1, first_post)), [1, 1, 1])           # (warm-up epochs may not follow a posterior epoch)
         durs = [e[1] for e in epochs[1:]]
         chunk = draw(st.sampled_from([d for d in range(1, math.gcd(*durs) + 1) if math.gcd(*durs) % d == 0]))
         return {"kind": draw(st.sampled_from(KINDS)), "epochs": epochs, "chunk": chunk, "chains": 2, "seed": draw(st.integers(0, 2**20)),
